@@ -290,6 +290,45 @@ static bool solveReduced(const SPxLPBase<double>& red, const std::vector<std::pa
    return true;
 }
 
+static void parseVec(const std::string& str, VectorBase<double>& v)
+{
+   std::vector<double> vals;
+   std::istringstream is(str);
+   std::string tok;
+
+   while(std::getline(is, tok, ','))
+      if(!tok.empty())
+         vals.push_back(vf::undy(tok));
+
+   v.reDim((int)vals.size());
+
+   for(size_t k = 0; k < vals.size(); k++)
+      v[(int)k] = vals[k];
+}
+
+static void parseStat(const std::string& str, std::vector<VS>& a)
+{
+   a.clear();
+
+   for(char c : str)
+   {
+      switch(c)
+      {
+      case 'U': a.push_back(SPxSolverBase<double>::ON_UPPER); break;
+
+      case 'L': a.push_back(SPxSolverBase<double>::ON_LOWER); break;
+
+      case 'F': a.push_back(SPxSolverBase<double>::FIXED); break;
+
+      case 'Z': a.push_back(SPxSolverBase<double>::ZERO); break;
+
+      case 'B': a.push_back(SPxSolverBase<double>::BASIC); break;
+
+      default: break;
+      }
+   }
+}
+
 static std::string stV(const std::vector<VS>& a)
 {
    std::string o;
@@ -633,6 +672,40 @@ int main(int argc, char** argv)
          }
 
          L.rows.push_back(r);
+      }
+      else if(t[0] == "SIMPX")
+      {
+         // SIMPX <run> keep= seed= vid= x= y= s= r= rs= cs=   : postsolve a given optimal basic solution of the reduced LP
+         std::map<std::string, std::string> a;
+
+         for(size_t k = 2; k < t.size(); k++)
+         {
+            size_t e = t[k].find('=');
+
+            if(e != std::string::npos)
+               a[t[k].substr(0, e)] = t[k].substr(e + 1);
+         }
+
+         try
+         {
+            Vertex v;
+            parseVec(a["x"], v.x);
+            parseVec(a["y"], v.y);
+            parseVec(a["s"], v.s);
+            parseVec(a["r"], v.r);
+            parseStat(a["rs"], v.rows);
+            parseStat(a["cs"], v.cols);
+            v.obj = vf::undy(a["obj"]);
+            v.cfg = "altbasis";
+            auto tol = std::make_shared<Tolerances>();
+            postsolve(L, tol, a["keep"] == "1", (unsigned)strtoul(a["seed"].c_str(), nullptr, 10), id + "/" + t[1] + "." + a["vid"], v, true);
+         }
+         catch(const std::exception& e)
+         {
+            printf("UNS %s/%s.%s stdexception=%s\n", id.c_str(), t[1].c_str(), a["vid"].c_str(), vf::hex(e.what()).c_str());
+         }
+
+         fflush(stdout);
       }
       else if(t[0] == "SIMP")
       {
